@@ -143,7 +143,12 @@ class StubState:
 
     @property
     def counts(self):
-        return Opaque('counts', success=0, failure=0, running=0)
+        c = Opaque('counts')
+        for f in ('success', 'failure', 'running'):
+            n = self.vc.int(f'counts.{f}[{self.tag}]')
+            self.vc.assume(n >= 0, 'a count')
+            setattr(c, f, n)
+        return c
 
     def store(self, body, patch, storage): self.vc.emit('store', self, body, patch, storage)
     def purge(self, body, patch, storage, handlers): self.vc.emit('purge', self, body, patch, storage, handlers)
